@@ -236,6 +236,7 @@ class CFG:
                 tr = tt["otherwise"]
                 if f is None:
                     return None
+                self.last_switch_block = cur
                 return (f, tr) if neg else (tr, f)
             if tt["k"] == "Goto":
                 cur = tt["target"]
